@@ -14,14 +14,17 @@
 //! Columns travel as an LCG seed (same generator in the Lean driver).
 use std::marker::PhantomData;
 
-use winter_air::PartitionOptions;
+use winter_air::{
+    Air, AirContext, Assertion, BatchingMethod, EvaluationFrame, FieldExtension, PartitionOptions,
+    ProofOptions, TraceInfo, TransitionConstraintDegree,
+};
 use winter_crypto::{
     hashers::{Blake3_256, Rp64_256},
     ElementHasher, Hasher, MerkleTree,
 };
 use winter_math::{
     fft,
-    fields::{f128, f64, QuadExtension},
+    fields::{f128, f64, CubeExtension, QuadExtension},
     FieldElement, StarkField,
 };
 use winter_prover::{
@@ -31,6 +34,7 @@ use winter_prover::{
 
 use crate::c10::{mulmod, o_add, o_mul, show, spec, Fld, Spec};
 use crate::c18::{Toy, TD};
+use crate::genair::BF;
 use crate::out::Out;
 use crate::rng::Rng;
 
@@ -199,6 +203,36 @@ fn col_rows<E: Fld>(m: &ColMatrix<E>) -> Vec<Vec<El>> {
     (0..m.num_rows()).map(|r| (0..m.num_cols()).map(|c| m.get(c, r).to_canon()).collect()).collect()
 }
 
+/// a minimal real `Air`: one column, one transition constraint of the given degree, one assertion.
+/// Only its `AirContext` matters here: `StarkDomain::new(&air)` reads trace length, constraint
+/// evaluation domain size (from the degree), LDE domain size (from the options) and the offset.
+struct MiniAir<B: BF> { ctx: AirContext<B> }
+impl<B: BF> Air for MiniAir<B> {
+    type BaseField = B;
+    type PublicInputs = ();
+    fn new(trace_info: TraceInfo, _pub_inputs: (), options: ProofOptions) -> Self {
+        MiniAir { ctx: AirContext::new(trace_info, vec![TransitionConstraintDegree::new(1)], 1, options) }
+    }
+    fn context(&self) -> &AirContext<B> { &self.ctx }
+    fn evaluate_transition<E: FieldElement<BaseField = B>>(&self, _frame: &EvaluationFrame<E>, _periodic: &[E], result: &mut [E]) {
+        result[0] = E::ZERO;
+    }
+    fn get_assertions(&self) -> Vec<Assertion<B>> { vec![Assertion::single(0, 0, B::ZERO)] }
+}
+fn mini_air<B: BF>(n: usize, degree: usize, blowup: usize) -> MiniAir<B> {
+    let options = ProofOptions::new(1, blowup, 0, FieldExtension::None, 2, 1, BatchingMethod::Linear, BatchingMethod::Linear);
+    MiniAir { ctx: AirContext::new(TraceInfo::new(1, n), vec![TransitionConstraintDegree::new(degree)], 1, options) }
+}
+/// constraint-evaluation blowup from the documentation: the power of two covering degree - 1, at least 2
+fn my_ce_blowup(degree: usize) -> usize {
+    let mut p = 1;
+    while p < degree - 1 { p *= 2; }
+    p.max(2)
+}
+/// (constraint degree, LDE blowup): ce < lde, ce == lde, maximal gap (degree 1, blowup 2..128)
+const AIR_CASES: [(usize, usize); 17] = [(1, 2), (1, 4), (1, 8), (1, 16), (1, 32), (1, 64), (1, 128), (2, 2), (3, 16), (3, 2),
+    (4, 4), (5, 4), (5, 8), (5, 32), (8, 8), (9, 8), (9, 16)];
+
 struct Budget { left: u64, cap: u64 }
 impl Budget {
     /// largest k in [3, maxk] whose cost fits the per-case cap (and the total budget)
@@ -214,9 +248,9 @@ impl Budget {
 
 const POS: [(usize, usize); 12] = [(1, 1), (2, 8), (4, 8), (16, 4), (3, 1), (2, 1), (8, 2), (16, 255), (4, 3), (5, 7), (16, 1), (2, 12)];
 
-fn run_field<B, E>(rng: &mut Rng, out: &mut Out, maxk: u32, bud: &mut Budget, factor: u64)
+fn run_field<B, E>(rng: &mut Rng, out: &mut Out, maxk: u32, bud: &mut Budget, factor: u64, widths: &[usize])
 where
-    B: StarkField + Fld + 'static,
+    B: BF + Fld + 'static,
     E: FieldElement<BaseField = B> + Fld + 'static,
 {
     let (sb, se) = (spec(B::NAME), spec(E::NAME));
@@ -248,7 +282,6 @@ where
     };
     let padded = |nn: usize, cols: usize| -> usize { (cols * deg + nn - 1) / nn * nn };
 
-    let widths: Vec<usize> = (1..=20).chain(31..=34).collect();
     for (wi, &w) in widths.iter().enumerate() {
         let nn = *rng.pick(&[8usize, 8, 8, 8, 1, 2, 3, 4, 16]);
         let blowup = *rng.pick(&[2usize, 2, 4, 8, 16]);
@@ -299,14 +332,18 @@ where
             let (np, hr) = POS[wi % POS.len()];
             let p2 = polys.clone();
             // oracle: LDE by the implementation (checked above), digests by the verifier's rule
-            let cm = ColMatrix::new(to_cols::<E>(&polys));
-            let m = eval_n(8, &cm, blowup);
             let ps = my_partition_size(np, hr, deg, w);
-            let leaves: Vec<TD> = (0..m.num_rows()).map(|r| verifier_hash_row::<ToyE<B>, E>(m.row(r), ps)).collect();
-            let mut lh: u64 = 0xcbf29ce484222325;
-            for d in &leaves { lh = (lh ^ d.0[0]).wrapping_mul(0x100000001b3); lh = lh.wrapping_mul(0x100000001b3); }
-            let tree = MerkleTree::<ToyE<B>>::new(leaves).unwrap();
-            let oracle = format!("root={}:lh{}", show_td(tree.root()), lh);
+            let p3 = polys.clone();
+            let oracle = std::panic::catch_unwind(move || {
+                let cm = ColMatrix::new(to_cols::<E>(&p3));
+                let m = eval_n(8, &cm, blowup);
+                assert_eq!(m.num_cols(), w);
+                let leaves: Vec<TD> = (0..m.num_rows()).map(|r| verifier_hash_row::<ToyE<B>, E>(m.row(r), ps)).collect();
+                let mut lh: u64 = 0xcbf29ce484222325;
+                for d in &leaves { lh = (lh ^ d.0[0]).wrapping_mul(0x100000001b3); lh = lh.wrapping_mul(0x100000001b3); }
+                let tree = MerkleTree::<ToyE<B>>::new(leaves).unwrap();
+                format!("root={}:lh{}", show_td(tree.root()), lh)
+            }).unwrap_or_else(|_| "oracle-side-panic".to_string());
             out.count(&format!("{name}:commit:np{np}:hr{hr}:{}", if ps == w { "whole-row" } else if ps > w { "one-partition-merged" } else { "partitioned" }));
             bud.left = bud.left.saturating_sub((padded(8, w) * rows) as u64 * factor);
             out.case(&format!("c28 {name} commit 8 {kind} {w} {k} {blowup} {np} {hr} {seed}"), &oracle, move || {
@@ -378,8 +415,8 @@ where
     // ---- larger sizes (up to 2^maxk coefficients; thorough: across the 1024-row threshold)
     for (bi, &k) in [7u32, 8, 9, maxk, maxk].iter().enumerate() {
         let w = if bi == 3 { 3 } else { *rng.pick(&[3usize, 9, 17, 8]) };
-        let blowup = if bi == 4 { if factor > 1 { 4 } else { 8 } } else { 2 };
-        let w = if bi == 4 { w.min(8) } else { w };
+        let blowup = if bi == 4 { if factor > 1 || deg > 1 { 4 } else { 8 } } else { 2 };
+        let w = if bi == 4 { w.min((8 / deg).max(2)) } else if k >= 9 { w.min(9) } else { w };
         let k = k.min(maxk);
         let n = 1usize << k;
         let seed = rng.next();
@@ -393,6 +430,58 @@ where
             let cm = ColMatrix::new(to_cols::<E>(&p2));
             let m = eval_n(8, &cm, blowup);
             show_matrix(&rows_of(&m), row_width(&m), &s2)
+        });
+    }
+
+    // ---- domains built by StarkDomain::new(&air): the constraint-evaluation blowup (from the
+    // constraint degree) may be smaller than the LDE blowup; evaluate_columns_over and
+    // evaluate_polys_over must produce n * LDE-blowup rows over offset * g_lde^r
+    for (ci, &(degree, blowup)) in AIR_CASES.iter().enumerate() {
+        let lb = blowup.trailing_zeros();
+        let hi = if maxk > 10 { 11 } else { 8 };
+        let k = if lb + 3 >= hi { 3 } else { 3 + (ci as u32 + deg as u32) % (hi - lb - 2).min(4) };
+        let n = 1usize << k;
+        let ceb = my_ce_blowup(degree);
+        let gap = if ceb < blowup { "ce<lde" } else { "ce=lde" };
+        out.count(&format!("{name}:dom:{gap}"));
+        let oracle = format!("tl={n} ce={} lde={} t2c={ceb} t2l={blowup} c2l={} off={gen}", n * ceb, n * blowup, blowup / ceb);
+        out.case(&format!("c28 {name} dom {k} {degree} {blowup}"), &oracle, move || {
+            let air = mini_air::<B>(n, degree, blowup);
+            let d = StarkDomain::new(&air);
+            format!("tl={} ce={} lde={} t2c={} t2l={} c2l={} off={}", d.trace_length(), d.ce_domain_size(), d.lde_domain_size(),
+                d.trace_to_ce_blowup(), d.trace_to_lde_blowup(), d.ce_to_lde_blowup(), show(&d.offset().to_canon()))
+        });
+        let w = [1usize, 2, 3, 5, 9, 4][ci % 6];
+        let nn = [8usize, 1, 3, 8, 2, 16][ci % 6];
+        let kind = (ci % 3) as u64;
+        let seed = rng.next();
+        let polys = gen_matrix(&se, kind, w, n, seed);
+        let rows = n * blowup;
+        let sel = sample(rng, rows, blowup);
+        let oracle = lde_oracle(&polys, n, blowup, gen, "0".to_string(), &sel);
+        let (p2, s2) = (polys.clone(), sel.clone());
+        out.count(&format!("{name}:aircols:{gap}"));
+        out.case(&format!("c28 {name} aircols {kind} {w} {k} {degree} {blowup} {seed} {}", show_sel(&sel)), &oracle, move || {
+            let cm = ColMatrix::new(to_cols::<E>(&p2));
+            let dom = StarkDomain::new(&mini_air::<B>(n, degree, blowup));
+            show_matrix(&col_rows(&cm.evaluate_columns_over(&dom)), 0, &s2)
+        });
+        let oracle = lde_oracle(&polys, n, blowup, gen, padded(nn, w).to_string(), &sel);
+        let (p2, s2) = (polys.clone(), sel.clone());
+        out.count(&format!("{name}:airover:{gap}"));
+        out.case(&format!("c28 {name} airover {nn} {kind} {w} {k} {degree} {blowup} {seed} {}", show_sel(&sel)), &oracle, move || {
+            let cm = ColMatrix::new(to_cols::<E>(&p2));
+            let dom = StarkDomain::new(&mini_air::<B>(n, degree, blowup));
+            let m = eval_over_n(nn, &cm, &dom);
+            show_matrix(&rows_of(&m), row_width(&m), &s2)
+        });
+    }
+    // AirContext::new rejects an LDE blowup below the constraint-evaluation blowup
+    for (degree, blowup) in [(5usize, 2usize), (9, 4), (17, 8)] {
+        out.count(&format!("{name}:dom:ce>lde"));
+        out.case(&format!("c28 {name} dom 3 {degree} {blowup}"), "abort", move || {
+            let d = StarkDomain::new(&mini_air::<B>(8, degree, blowup));
+            format!("tl={} lde={}", d.trace_length(), d.lde_domain_size())
         });
     }
 
@@ -428,6 +517,9 @@ fn real_rp64<E: FieldElement + 'static>(m: &RowMatrix<E>, po: PartitionOptions, 
     }
     if let Some(mq) = (m as &dyn Any).downcast_ref::<RowMatrix<QuadExtension<f64::BaseElement>>>() {
         return real_commit_agrees::<Rp64_256, QuadExtension<f64::BaseElement>>(mq, po, np, hr);
+    }
+    if let Some(mc) = (m as &dyn Any).downcast_ref::<RowMatrix<CubeExtension<f64::BaseElement>>>() {
+        return real_commit_agrees::<Rp64_256, CubeExtension<f64::BaseElement>>(mc, po, np, hr);
     }
     true
 }
@@ -495,10 +587,14 @@ pub fn run(rng: &mut Rng, out: &mut Out, n: usize) {
     std::panic::set_hook(Box::new(|_| {}));
     // ---- matrices
     let (total, cap) = if thorough { (14u64 << 20, 1u64 << 19) } else { (1u64 << 20, 1u64 << 15) };
+    let all: Vec<usize> = (1..=20).chain(31..=34).collect();
+    let some: Vec<usize> = (1..=11).chain([13, 16, 17, 31, 32]).collect();
     let mut bud = Budget { left: total / 2, cap };
-    run_field::<f64::BaseElement, f64::BaseElement>(rng, out, maxk, &mut bud, 1);
+    run_field::<f64::BaseElement, f64::BaseElement>(rng, out, maxk, &mut bud, 1, &all);
     let mut bud = Budget { left: total / 4, cap };
-    run_field::<f64::BaseElement, QuadExtension<f64::BaseElement>>(rng, out, maxk, &mut bud, 1);
+    run_field::<f64::BaseElement, QuadExtension<f64::BaseElement>>(rng, out, maxk, &mut bud, 1, &all);
+    let mut bud = Budget { left: total / 8, cap };
+    run_field::<f64::BaseElement, CubeExtension<f64::BaseElement>>(rng, out, maxk.min(if thorough { 11 } else { 9 }), &mut bud, 1, if thorough { &all } else { &some });
     let mut bud = Budget { left: total / 4, cap };
-    run_field::<f128::BaseElement, f128::BaseElement>(rng, out, maxk.min(11), &mut bud, 3);
+    run_field::<f128::BaseElement, f128::BaseElement>(rng, out, maxk.min(11), &mut bud, 3, &all);
 }
